@@ -13,6 +13,7 @@ import (
 	"strings"
 	"sync"
 	"testing"
+	"time"
 
 	"github.com/tormoder/fit"
 	"pgregory.net/rapid"
@@ -251,23 +252,51 @@ func check(rec *hx.Recorder, c *faultCase, regions map[string]int64) (string, bo
 				if k%3 == 1 {
 					opts = []fit.DecodeOption{fit.WithLogger(log.New(io.Discard, "", 0)), fit.WithUnknownFields(), fit.WithUnknownMessages()}
 				}
-				switch e {
-				case eDecode:
-					f, err = fit.Decode(r, opts...)
-				case eChained:
-					fs, err = fit.DecodeChained(r, opts...)
-				case eIntegrity:
-					err = fit.CheckIntegrity(r, false)
-				case eIntegrityHdr:
-					err = fit.CheckIntegrity(r, true)
-				case eHeader:
-					_, err = fit.DecodeHeader(r)
-				case eHeaderFileID:
-					_, _, err = fit.DecodeHeaderAndFileID(r)
+				call := func() {
+					switch e {
+					case eDecode:
+						f, err = fit.Decode(r, opts...)
+					case eChained:
+						fs, err = fit.DecodeChained(r, opts...)
+					case eIntegrity:
+						err = fit.CheckIntegrity(r, false)
+					case eIntegrityHdr:
+						err = fit.CheckIntegrity(r, true)
+					case eHeader:
+						_, err = fit.DecodeHeader(r)
+					case eHeaderFileID:
+						_, _, err = fit.DecodeHeaderAndFileID(r)
+					}
 				}
 				what := "cut" + kindName
 				if isFault {
 					what = "read fault"
+				}
+				if isFault {
+					// a reader that keeps failing must not keep the call
+					// busy for ever: the call runs under a deadline. Once a
+					// call has hung on one error value, no further calls
+					// are made with that value (each would leave a spinning
+					// goroutine behind).
+					if _, hung := hungOn.Load(c.Chunk.FaultErr); hung {
+						continue
+					}
+					done := make(chan any, 1)
+					go func() { done <- oracle.Catch(call) }()
+					tm := time.NewTimer(30 * time.Second)
+					select {
+					case pv := <-done:
+						tm.Stop()
+						if pv != nil {
+							panic(pv)
+						}
+					case <-tm.C:
+						hungOn.Store(c.Chunk.FaultErr, true)
+						msg = fmt.Sprintf("%s has not returned 30 s after its reader failed at offset %d with %q (it keeps calling a reader that keeps failing)", entryNames[e], k, c.Chunk.FaultError())
+						return
+					}
+				} else {
+					call()
 				}
 				if k >= need {
 					if err != nil {
@@ -369,6 +398,9 @@ func check(rec *hx.Recorder, c *faultCase, regions map[string]int64) (string, bo
 	return msg, msg == ""
 }
 
+// hungOn records the fault error values on which a call has not returned.
+var hungOn sync.Map
+
 // memKinds are the reader kinds that need no file descriptor.
 var memKinds = func() []gen.ReaderKind {
 	all := gen.ReaderKinds("")
@@ -396,13 +428,23 @@ func mkChunk(kind int, k int, mode int) gen.Chunking {
 	case 3:
 		// the reader's own error is io.ErrUnexpectedEOF: a failure, not a
 		// clean end of input
+		// (two offsets in three; on the others one of the other error
+		// values real readers fail with: EINTR, EAGAIN, a timeout, ...)
 		ch.FaultAt = k
 		ch.FaultErr = "unexpected-eof"
+		if k%3 == 2 {
+			ch.FaultErr = gen.FaultErrKinds[(k/3)%len(gen.FaultErrKinds)]
+		}
 	case 4:
 		// a transient fault: the error is returned once, a retry would
-		// succeed. The call that got the error has still failed.
+		// succeed. The call that got the error has still failed - whatever
+		// the error value is (half of them are values that name themselves
+		// temporary: EINTR, EAGAIN, a timeout).
 		ch.FaultAt = k
 		ch.Transient = true
+		if k%2 == 1 {
+			ch.FaultErr = gen.FaultErrKinds[(k/2)%len(gen.FaultErrKinds)]
+		}
 	}
 	if kind%5 == 4 {
 		ch.Empty = 3 // empty reads in between
